@@ -391,3 +391,72 @@ def r6(rr, repo):
 def r7(rr, repo):
     from .c10 import r9 as c10r9
     c10r9(rr, repo)
+
+
+@rule('C09.R8', 'decoding undoes encoding, case by case: the decoder is partially evaluated on the message the encoder builds for every kind of frame (no image / raw image / jpg image, each with and without data) and must '
+                'yield the constructor call that rebuilds that frame - same image bytes, the header fields in their places, the data through the inverse of its serialisation, nothing else')
+def r8(rr, repo):
+    from ..peval import PEval, Obj, Sym, Lit, Lst, Dct, Undecided, Raised
+    mod, enc = repo.find(f'{MQF}::MQ.frames2topicmsgs')
+    _, dec = repo.find(f'{MQF}::MQ.topicmsgs2frames')
+
+    def loop_of(fn):
+        ls = [n for n in fn.body if isinstance(n, ast.For) and U(n.iter).endswith('.items()') and isinstance(n.target, ast.Tuple) and len(n.target.elts) == 2]
+        if len(ls) != 1:
+            raise Unresolved(f'{MQF}: {fn.name}: expected one loop over the topic dictionary')
+        return ls[0]
+    eloop, dloop = loop_of(enc), loop_of(dec)
+    e_topic, e_frame = [U(x) for x in eloop.target.elts]
+    d_topic, d_msg = [U(x) for x in dloop.target.elts]
+    e_params = q.func_params(enc)
+    outs_param = e_params[1] if len(e_params) > 1 else 'outs_jpg'
+    e_out = U(eloop.body[-1].targets[0].value) if isinstance(eloop.body[-1], ast.Assign) and isinstance(eloop.body[-1].targets[0], ast.Subscript) else None
+    d_out = U(dloop.body[-1].targets[0].value) if isinstance(dloop.body[-1], ast.Assign) and isinstance(dloop.body[-1].targets[0], ast.Subscript) else None
+    if e_out is None or d_out is None:
+        raise Unresolved(f'{MQF}: the codec loops do not end by storing their result under the topic')
+    n = 0
+    for has_image in (False, True):
+        for has_data in (False, True):
+            for mode in ((None,) if not has_image else ('jpg-cached', 'jpg-forced', 'raw-forced', 'raw-default')):
+                label = f'{"image" if has_image else "no image"}{"/" + mode if mode else ""}, {"data" if has_data else "no data"}'
+                frame = Obj({'has_image': Lit(has_image), 'data': Sym('frame.data', truth=has_data),
+                             'has_jpg': Lit(mode == 'jpg-cached') if has_image else Lit(None),
+                             'height': Sym('frame.height'), 'width': Sym('frame.width'), 'format': Sym('frame.format'), 'jpg': Sym('frame.jpg', True), 'image': Sym('frame.image', True)}, 'frame')
+                outs = Lit(None) if mode in ('jpg-cached', 'raw-default') else Lit(mode == 'jpg-forced')
+                pe = PEval({e_frame: frame, e_topic: Sym('topic'), outs_param: outs, e_out: Dct({})})
+                try:
+                    pe.run(eloop.body)
+                except (Undecided, Raised) as exc:
+                    rr.unresolved(f'encoder, {label}: cannot be followed ({exc})', mod, eloop, key=f'roundtrip|enc|{label}')
+                    continue
+                msg = pe.env[e_out].d.get("topic") if isinstance(pe.env.get(e_out), Dct) else None
+                if msg is None:
+                    rr.violated(f'encoder, {label}: no message is stored for the topic', mod, eloop, key=f'roundtrip|enc|{label}')
+                    continue
+                pd = PEval({d_msg: msg, d_topic: Sym('topic'), d_out: Dct({})})
+                try:
+                    pd.run(dloop.body)
+                except Raised as exc:
+                    rr.violated(f'{label}: the decoder rejects the message the encoder builds for this frame', mod, exc.node, witness=repr(msg)[:200], key=f'roundtrip|{label}')
+                    continue
+                except Undecided as exc:
+                    rr.unresolved(f'{label}: decoder cannot be followed on the encoder\'s message ({exc})', mod, dloop, witness=repr(msg)[:160], key=f'roundtrip|{label}')
+                    continue
+                got = pd.env[d_out].d.get('topic')
+                n += 1
+                g = repr(got).replace(' ', '')
+                D = "json_loads(json_dumps(frame.data,separators=(',',':')).encode().decode())" if has_data else 'None'
+                if not has_image:
+                    want = [f'Frame({D})']
+                elif mode.startswith('jpg'):
+                    want = [f'Frame.from_jpg(frame.jpg,{D},frame.height,frame.width,frame.format)']
+                else:
+                    buf = 'np.frombuffer(bytearray(memoryview(frame.image)),np.uint8)'
+                    want = [f"Frame({buf}.reshape({two}ifframe.format=='GRAY'else(frame.height,frame.width,3)),{D},frame.format)" for two in ('(frame.height,frame.width)', '[frame.height,frame.width]')]
+                rr.ob(f'{label}: decode(encode(frame)) rebuilds the frame from the same bytes, header fields and data', g in want, mod, dloop, witness=f'{repr(got)[:220]}', key=f'roundtrip|{label}')
+    rr.floor('frame kinds taken through encoder and decoder', n, 10, mod, enc)
+    for fn, out, loop in ((enc, e_out, eloop), (dec, d_out, dloop)):
+        inits = [s_ for s_ in fn.body if isinstance(s_, ast.Assign) and U(s_.targets[0]) == out and isinstance(s_.value, ast.Dict) and not s_.value.keys and s_.lineno < loop.lineno]
+        rets = [s_ for s_ in fn.body if isinstance(s_, ast.Return)]
+        rr.ob(f'{fn.name} starts from an empty result and returns the dictionary the loop filled (one entry per topic, nothing carried over)', len(inits) == 1 and len(rets) == 1 and rets[0].value is not None and U(rets[0].value) == out and rets[0].lineno > loop.lineno,
+              mod, fn, key=f'codec-result|{fn.name}')
